@@ -16,12 +16,22 @@ def run_seqmc(binary, sub, args, timeout=3600):
     cmd = [binary, sub]
     for k, v in args.items():
         cmd += ["--" + k, str(v)]
-    p = subprocess.run(cmd, stdout=subprocess.PIPE, stderr=subprocess.PIPE, timeout=timeout)
+    import tempfile
+    fd, outp = tempfile.mkstemp(prefix="seqmc-", suffix=".json", dir="/var/tmp")
+    os.close(fd)
+    env = dict(os.environ)
+    env["SEQMC_OUT"] = outp
     try:
-        rep = json.loads(p.stdout.decode("utf-8", "replace"))
+        p = subprocess.run(cmd, stdout=subprocess.DEVNULL, stderr=subprocess.PIPE, timeout=timeout, env=env)
+        rep = json.loads(open(outp, encoding="utf-8", errors="replace").read())
+    except subprocess.TimeoutExpired:
+        os.remove(outp)
+        raise MachineryError("seqmc %s timed out" % sub)
     except Exception:
+        os.remove(outp)
         raise MachineryError("seqmc %s produced no report (exit %s): %s" % (
             sub, p.returncode, p.stderr.decode("utf-8", "replace")[-3000:]))
+    os.remove(outp)
     rep["_cmd"] = " ".join(cmd)
     return rep
 
